@@ -31,13 +31,24 @@ func runC10P(r *simkit.Run, c Cfg) {
 		extra = tp.Bytes(1+tp.Choose(200, "extralen"), "extra")
 		sopts = append(sopts, p2psender.WithExtraData(extra))
 	}
-	stopic, scancel, err := gossiptopic.MakeTopic(pw.send, topicName)
-	if err != nil {
-		r.Violate("c10.setup", "MakeTopic: %v", err)
-		return
+	// the sender joins the topic itself (then it also knows how large a
+	// gossip message may be), or is handed a topic by the application
+	ownTopic := tp.Chance(1, 2, "ownTopic")
+	var stopic *pubsub.Topic
+	var snd *p2psender.Sender
+	var err error
+	if ownTopic {
+		snd, err = p2psender.New(pw.send, topicName, sopts...)
+	} else {
+		var scancel context.CancelFunc
+		stopic, scancel, err = gossiptopic.MakeTopic(pw.send, topicName)
+		if err != nil {
+			r.Violate("c10.setup", "MakeTopic: %v", err)
+			return
+		}
+		defer scancel()
+		snd, err = p2psender.New(nil, "", append(sopts, p2psender.WithTopic(stopic))...)
 	}
-	defer scancel()
-	snd, err := p2psender.New(nil, "", append(sopts, p2psender.WithTopic(stopic))...)
 	if err != nil {
 		r.Violate("c10.setup", "p2psender.New: %v", err)
 		return
@@ -67,6 +78,14 @@ func runC10P(r *simkit.Run, c Cfg) {
 	for i := 0; i < 20; i++ { // fixed length: the start time of the workload must not depend on gossipsub internals
 		r.Advance(time.Second)
 		r.Quiesce()
+		if ownTopic {
+			// the sender's own router is out of sight: subscriptions are
+			// exchanged right after the two routers connect
+			if len(pw.send.Network().ConnsToPeer(pw.recv.ID())) > 0 && i >= 10 {
+				ready = true
+			}
+			continue
+		}
 		for _, p := range stopic.ListPeers() {
 			if p == pw.recv.ID() {
 				ready = true
@@ -75,7 +94,9 @@ func runC10P(r *simkit.Run, c Cfg) {
 	}
 	if !ready {
 		r.Logf("~cfg", "gossip mesh did not form: run skipped")
+		snd.Close()
 		r.MarkEnd()
+		r.Advance(10 * time.Second)
 		return
 	}
 	nb := tp.Range(1, 3, "bursts")
@@ -94,11 +115,27 @@ func runC10P(r *simkit.Run, c Cfg) {
 			if len(extra) == 0 && tp.Chance(1, 3, "mextra") {
 				m.ExtraData = tp.Bytes(1+tp.Choose(40, "mextralen"), "mextra")
 			}
+			big := false
+			if ownTopic && len(extra) == 0 && tp.Chance(1, 8, "mbig") {
+				// extra data the encoder allows (its cap is 2 MiB) that brings
+				// the message near or over what one gossip message may be
+				// (1 MiB, envelope included): the sender says no, or the
+				// message arrives
+				n := (1 << 20) - []int{16384, 8192, 4096, 2048, 1024, 512, 200, 0, -4096}[tp.Choose(9, "mbiglen")]
+				m.ExtraData = bytes.Repeat([]byte{byte(len(sent) + 1)}, n)
+				big = true
+				r.Probe("gossip-message-near-size-limit")
+			}
 			sctx, scancel := context.WithTimeout(context.Background(), 5*time.Second)
-			if err := snd.Send(sctx, m); err != nil {
+			err := snd.Send(sctx, m)
+			scancel()
+			if err != nil && big {
+				r.Probe("gossip-send-refused-oversize")
+				continue
+			}
+			if err != nil {
 				r.Violate("c10.send", "gossip Send: %v", err)
 			}
-			scancel()
 			if len(extra) != 0 {
 				m.ExtraData = extra
 			}
